@@ -372,6 +372,19 @@ func rvAddressableReadonly(v reflect.Value) reflect.Value {
 	return v
 }
 
+// rvNotAddressable returns v without the addressable permission bit.
+//
+// The values that mapRange, mapGet and rvArrayIndex hand out are views of the map's
+// or array's own storage and carry the addressable bit, even though a map entry
+// (or an element of a non-addressable array) is not addressable. This lets the encoder
+// honour EncodeOptions.NoAddressableReadonly for them: a value without the bit goes
+// through addrRV, which then copies it before a pointer method is called on it.
+func rvNotAddressable(v reflect.Value) reflect.Value {
+	uv := (*unsafeReflectValue)(unsafe.Pointer(&v))
+	uv.flag = uv.flag &^ unsafeFlagAddr
+	return v
+}
+
 func rtsize2(rt unsafe.Pointer) uintptr {
 	return ((*unsafeRuntimeType)(rt)).size
 }
